@@ -17,9 +17,12 @@ keeps id / ty / sp and records the rule in `nf`):
   NF8  a named constant array of integers                -> the array literal
   NF9  unsigned x / 2^k, x % 2^k, x * 2^k                -> x >> k, x & (2^k - 1), x << k
   NF11 a.eq(&b), a.ne(&b)                                -> a == b, a != b
+  NF22 uN::from_le_bytes([e0, e1, ..]) as T  (T wider)     -> (e0 as T) + ((e1 as T) << 8) + ..   (array literal argument only)
   NF20 if a % k == 0 { a / k } else { a / k + 1 }        -> a.div_ceil(k)       (unsigned a, literal k > 0)
   NF10 let f = match s { A => e1, .. }; if f { X }  (f used once) -> match s { A => if e1 { X }, .. }
 """
+import re
+
 from . import hir as H
 
 INT_BITS = {"u8": 8, "u16": 16, "u32": 32, "u64": 64, "u128": 128, "usize": 64,
@@ -81,6 +84,31 @@ def _quotient(n):
     if n["op"] == ">>" and 0 < v < 64:
         return n["l"], 1 << v
     return None
+
+
+def _le_bytes(call, ty, like):
+    """NF22  (uN::from_le_bytes([e0, e1, ..]) as T)  with T unsigned and at least N bits   ->   (e0 as T) + ((e1 as T) << 8) + ..
+    (from_be_bytes: the same with the elements reversed).  Only for an array *literal* argument of u8 elements."""
+    call = _peel_block(call)
+    if not (isinstance(call, dict) and call.get("k") == "Call" and len(call.get("args") or ()) == 1 and ty in UNSIGNED):
+        return None
+    m = re.fullmatch(r"core::num::<impl (u\d+|usize)>::from_(le|be)_bytes", H.callee(call) or "")
+    arr = _peel_block(call["args"][0])
+    if not m or not (isinstance(arr, dict) and arr.get("k") == "Array") or INT_BITS[m.group(1)] > INT_BITS[ty]:
+        return None
+    elems = list(arr.get("elems") or ())
+    if len(elems) * 8 != INT_BITS[m.group(1)] or len(elems) < 2 or any((e.get("ty") or "") != "u8" for e in elems):
+        return None
+    if m.group(2) == "be":
+        elems.reverse()
+    base = {"id": like.get("id"), "ty": ty, "sp": like.get("sp")}
+    acc = None
+    for i, e in enumerate(elems):
+        t = {"k": "Cast", "e": e, "ty": ty, "id": e.get("id"), "sp": e.get("sp"), "nf": "NF22"}
+        if i:
+            t = {"k": "Binary", "op": "<<", "l": t, "r": _lit(8 * i, base, "NF22"), "id": e.get("id"), "ty": ty, "sp": e.get("sp"), "nf": "NF22"}
+        acc = t if acc is None else {"k": "Binary", "op": "+", "l": acc, "r": t, "id": like.get("id"), "ty": ty, "sp": like.get("sp"), "nf": "NF22"}
+    return acc
 
 
 def _ceil_div(n):
@@ -161,6 +189,9 @@ class Normalizer:
             v = _int(n["e"])
             if v is not None and n.get("ty") in INT_BITS and _fits(v, n["ty"]):
                 return _lit(v, n, "NF2")
+            le = _le_bytes(n["e"], n.get("ty"), n)
+            if le is not None:
+                return le
             return n
         if k == "Unary" and n["op"] == "!":
             e = n["e"]
